@@ -104,8 +104,10 @@ def syntax_only(out_dir, header, compiler="clang++", timeout=300):
     return p.returncode == 0, (p.stdout + p.stderr)
 
 
-def run(binary, lines, cwd, reflection=None, other_reflection=None):
+def run(binary, lines, cwd, reflection=None, other_reflection=None, reload=False):
     args = [reflection] if reflection else []
-    if reflection and other_reflection:
-        args.append(other_reflection)
+    if reflection and (other_reflection or reload):
+        args.append(other_reflection or "-")
+    if reflection and reload:
+        args.append("reload")
     return driver.run_commands(binary, lines, cwd, args=args, timeout=900)
